@@ -1,4 +1,5 @@
 import BridgeVerif.Lemmas.Session
+import BridgeVerif.Lemmas.CheckMessage
 /-!
 # C09 — A session with four conforming clients always runs to completion
 
@@ -78,5 +79,13 @@ theorem log_is_opened_written_closed (sc : Scenario) (h : sc.boards ≠ []) :
     emitsOf (sessionProg sc .main) =
       LogOp.open :: (sc.boards.map fun bd => LogOp.write (recordOf sc bd.1 bd.2)) ++ [LogOp.close] := by
   exact session_log sc h
+
+/-- what "conforming" means for the `ready for …` messages the seat threads check (`PlayerThread._check_message`):
+any text that equals the expected one up to letter case and up to the length of each white-space run is accepted —
+in particular the expected text itself (the session model's clients send exactly it) -/
+theorem ready_messages_pass_the_server_check (e r : List Char) (h : ReadyVariant e r) : checkMessage e r = true :=
+  checkMessage_variant h
+
+example : checkMessage "North ready for East's bid".toList "NORTH   ready\tfor east's BID".toList = true := by decide
 
 end Bridge.C09
